@@ -4,7 +4,7 @@ ENTRY = dict(
     title="close() always terminates and leaves nothing running",
     design_ref="DESIGN.md section 6 / C12",
     prop_modules=["C12", "C12Clean"],
-    technique="Lean 4 connection machine (C11's, with the write queue's unfinished count, device / sub-device task sets, close and shutdown) + correspondence: close() at every position of generated histories on the real Connection under a virtual-time loop, quiescent-deadlock detection",
+    technique="Lean 4 connection machine (C11's, with the write queue's unfinished count, device / sub-device task sets, close and shutdown) + correspondence: close() at every position of generated histories on the real Connection under a virtual-time loop, quiescent-deadlock detection + all-schedule invariant C12Clean.done_clean (after a returned close() nothing is left, unconditionally) + held-open / late-open sections at loop-iteration granularity",
     level_text=(
         "Proof (partial, see clauses): `close_partial` - from every reachable state at rest that drains (write queue empty, or connected to a "
         "controller that keeps sending on a working transport, no set-up request round in progress) close() under the modelled scheduler "
